@@ -7,3 +7,5 @@ global size_of usize == 8;
 } // verus!
 pub mod bits;
 pub use bits::*;
+pub mod limbs;
+pub use limbs::*;
